@@ -51,7 +51,11 @@ theorem RInv.reset {root sp} (h : RInv root sp) (k : Nat) (soft : Bool) (hok : R
     rw [hwk]; exact h.inv2.workSeen
   · show ∀ y ∈ (undoN k sp.st).head, y ∈ sp.seen
     rw [uh]; exact hseenTip
-  · show splitPending (undoN k sp.st).head sp.st.work (mergedAuthor sp.st) = pendingOf _
+  · show PendingOK _
+    refine @PendingOK.of_work ⟨resetStep k soft sp.st, sp.g, sp.seen⟩ ?_ (by show sp.st.work = (resetStep k soft sp.st).work; rw [hwk])
+      (by show (resetStep k soft sp.st).work.Nodup; rw [hwk]; exact h.inv2.nodup)
+      (by show ∀ y ∈ (resetStep k soft sp.st).work, y ∈ sp.seen; rw [hwk]; exact h.inv2.workSeen)
+    show splitPending (undoN k sp.st).head sp.st.work (mergedAuthor sp.st) = pendingOf _
     rw [splitPending_eq_claims]
     unfold pendingOf
     show _ = claimsFrom 1 (resetStep k soft sp.st).work _
@@ -73,7 +77,7 @@ theorem RInv.reset {root sp} (h : RInv root sp) (k : Nat) (soft : Bool) (hok : R
 
 /-! ### stash: push, then pop onto the same content -/
 
-theorem RInv.stash_roundtrip {root sp} (h : RInv root sp) (stk : List (List (Nat × Nat))) :
+theorem RInv.stash_roundtrip {root sp} (h : RInv root sp) (stk : List (List Nat × List (Nat × Nat))) :
     RInv root ⟨(stashPop sp.st.work (stashPush ⟨sp.st, stk⟩)).st, sp.g, sp.seen⟩ ∧
     (stashPop sp.st.work (stashPush ⟨sp.st, stk⟩)).st.work = sp.st.work ∧
     (stashPop sp.st.work (stashPush ⟨sp.st, stk⟩)).stash = stk := by
@@ -89,7 +93,7 @@ theorem RInv.stash_roundtrip {root sp} (h : RInv root sp) (stk : List (List (Nat
   · have hl := hC.inv2.latest
     show match (checkpoint sp.st none).entries.getLast? with
       | some e => e.attr = e.snap.map (target _) ∧ ∀ y ∈ sp.st.work, y ∉ e.snap → target _ y = none
-      | none => _ = pendingOf _
+      | none => PendingOK _
     cases he : (checkpoint sp.st none).entries.getLast? with
     | some e =>
       rw [he] at hl
@@ -99,6 +103,7 @@ theorem RInv.stash_roundtrip {root sp} (h : RInv root sp) (stk : List (List (Nat
       exact hl.2 y (by show y ∈ (checkpoint sp.st none).work; rw [hwC]; exact hy)
     | none =>
       simp only
+      refine @PendingOK.of_work ⟨_, sp.g, sp.seen⟩ ?_ hwC h.inv2.nodup h.inv2.workSeen
       unfold pendingOf
       show List.filterMap _ (enum1 (checkpoint sp.st none).work) = claimsFrom 1 sp.st.work _
       rw [hwC]
@@ -255,11 +260,9 @@ theorem RInv.replay {root sp} (h : RInv root sp) (drop : Nat) (mid : List ((List
     rw [hwork, htip]; exact htipseen
   · show ∀ y ∈ (replayStep drop mid srcLog srcNotes news sp.st).head, y ∈ sp.seen
     rw [htip]; exact htipseen
-  · show (replayStep drop mid srcLog srcNotes news sp.st).initial = pendingOf _
-    have : (replayStep drop mid srcLog srcNotes news sp.st).initial = [] := rfl
-    rw [this]
-    symm
-    apply claimsFrom_eq_nil
+  · show PendingOK _
+    left
+    refine ⟨rfl, ?_⟩
     intro y hy
     have hy' : y ∈ (replayStep drop mid srcLog srcNotes news sp.st).head := hy
     simp [target, hy']
@@ -301,6 +304,8 @@ theorem RInv.squash {root sp} (h : RInv root sp) (srcLog : List (List Nat × Lis
     RInv root ⟨squashPrepare srcLog srcNotes ys sp.st, sp.g, sp.seen⟩ := by
   refine ⟨⟨hok.nodup, hok.seen, h.inv2.headSeen, by intro e he; simp [squashPrepare] at he, ?_⟩, h.hist, h.head,
     h.rootHuman, h.rootSeen, h.rootNodup, h.logSeen⟩
+  show PendingOK _
+  refine @PendingOK.of_work ⟨squashPrepare srcLog srcNotes ys sp.st, sp.g, sp.seen⟩ ?_ rfl hok.nodup hok.seen
   show splitPending sp.st.head ys (blame srcLog srcNotes) = pendingOf _
   rw [splitPending_eq_claims]
   unfold pendingOf
@@ -320,7 +325,7 @@ structure SwitchOK (root : List Nat) (sp : Spec) (otherLog : List (List Nat × L
   tip : otherHead = tipOf root otherLog
   seen : ∀ cp ∈ otherLog, ∀ y ∈ cp.1, y ∈ sp.seen
   /-- a file with local changes is the same at both tips; a file without has nothing in the working log -/
-  carry : (sp.st.work = sp.st.head ∧ sp.st.index = sp.st.head ∧ sp.st.entries = []) ∨
+  carry : (sp.st.work = sp.st.head ∧ sp.st.index = sp.st.head ∧ sp.st.entries = [] ∧ sp.st.initial = []) ∨
           (¬(sp.st.work = sp.st.head ∧ sp.st.index = sp.st.head) ∧ otherHead = sp.st.head)
 
 theorem tip_seen {root sp} (h : RInv root sp) (otherLog : List (List Nat × List Nat))
@@ -334,7 +339,7 @@ theorem RInv.switchCarry {root sp} (h : RInv root sp) (otherLog : List (List Nat
     (otherHead : List Nat) (hok : SwitchOK root sp otherLog otherNotes otherHead) :
     RInv root ⟨switchCarry otherLog otherNotes otherHead sp.st, sp.g, sp.seen⟩ := by
   have hts := tip_seen h otherLog hok.seen
-  rcases hok.carry with ⟨hw, hx, he⟩ | ⟨hn, heq⟩
+  rcases hok.carry with ⟨hw, hx, he, hi0⟩ | ⟨hn, heq⟩
   · have hc : (sp.st.work = sp.st.head && sp.st.index = sp.st.head) = true := by simp [hw, hx]
     unfold GitAi.Sys.switchCarry
     rw [if_pos hc]
@@ -348,22 +353,12 @@ theorem RInv.switchCarry {root sp} (h : RInv root sp) (otherLog : List (List Nat
     · exact h.inv2.snapSeen
     · show match sp.st.entries.getLast? with
         | some e => _
-        | none => sp.st.initial = pendingOf _
+        | none => PendingOK _
       rw [he]
       simp only [List.getLast?_nil]
-      -- nothing was pending before (work = HEAD), nothing is pending after
-      have hl := h.inv2.latest
-      rw [he] at hl
-      simp only [List.getLast?_nil] at hl
-      rw [hl]
-      have e1 : pendingOf sp = [] := by
-        apply claimsFrom_eq_nil
-        intro y hy
-        have : y ∈ sp.st.head := hw ▸ hy
-        simp [target, this]
-      rw [e1]
-      symm
-      apply claimsFrom_eq_nil
+      -- nothing is pending, and the working tree is the other tip
+      left
+      refine ⟨hi0, ?_⟩
       intro y hy
       have hy' : y ∈ otherHead := hy
       simp [target, hy']
@@ -399,17 +394,23 @@ theorem RInv.switchMerge {root sp} (h : RInv root sp) (otherLog : List (List Nat
     · exact h.inv2.workSeen y e
   · show ∀ y ∈ otherHead, y ∈ sp.seen
     rw [hok.tip]; exact hts
-  · show splitPending otherHead ys (wlAuthor sp.st) = pendingOf _
-    rw [splitPending_eq_claims]
-    unfold pendingOf
-    apply claimsFrom_congr
-    intro y hy
-    have hhd : (GitAi.Sys.switchMerge otherLog otherNotes otherHead ys sp.st).head = otherHead := rfl
-    simp only [target, hhd]
-    by_cases hx : y ∈ otherHead
-    · simp [hx]
-    · rcases hok.merged y hy with e | ⟨e1, e2⟩
-      · exact absurd e hx
-      · rw [hA]; simp [hx, e1, e2, target]
+  · show PendingOK _
+    refine @PendingOK.of_work ⟨GitAi.Sys.switchMerge otherLog otherNotes otherHead ys sp.st, sp.g, sp.seen⟩ ?_ rfl hok.nodup ?_
+    · show splitPending otherHead ys (wlAuthor sp.st) = pendingOf _
+      rw [splitPending_eq_claims]
+      unfold pendingOf
+      apply claimsFrom_congr
+      intro y hy
+      have hhd : (GitAi.Sys.switchMerge otherLog otherNotes otherHead ys sp.st).head = otherHead := rfl
+      simp only [target, hhd]
+      by_cases hx : y ∈ otherHead
+      · simp [hx]
+      · rcases hok.merged y hy with e | ⟨e1, e2⟩
+        · exact absurd e hx
+        · rw [hA]; simp [hx, e1, e2, target]
+    · intro y hy
+      rcases hok.merged y hy with e | ⟨e, _⟩
+      · exact hts y (hok.tip ▸ e)
+      · exact h.inv2.workSeen y e
 
 end GitAi.Sys
